@@ -528,6 +528,12 @@ def oracle_pair(calc_id, s1, s2):
         a1 = 1 - gR * P1 / (2 * g["A"] * g["G"]) - Qv / (2 * gR)
         a2 = 1 - gY * P2 / (2 * g["C"] * g["T"]) - Qv / (2 * gY)
         a3 = 1 - Qv / (2 * gR * gY)
+        if min(a1, a2, a3) == 0:
+            # exactly on the boundary: asserted only when the float computation is exact (all intermediates dyadic);
+            # otherwise rounding decides on which side the implementation lands (like a zero determinant)
+            r = tn93_terms_exact([k for k, v in cnt.items() for _ in range(v)])
+            if not (r and r[1]):
+                return ("skip", "log argument exactly 0 but not exactly representable in floating point")
         if a1 <= 0 or a2 <= 0 or a3 <= 0:
             return ("undef", "log of non-positive")
         k1 = 2 * g["A"] * g["G"] / gR
@@ -638,7 +644,7 @@ def check_dist(rep, c, ir, mr, stats):
         iv = ir["cells"][k]
         iv = None if iv == "absent" else iv
         mv = model_cell_value(mr[0][k])
-        if not close(iv, mv):
+        if not close(iv, mv) and oracle_pair(c["calc_id"], seqs[a], seqs[b])[0] != "skip":
             dis.append(dict(key=f"dist:{c['calc_id']}:cell", case=c, pair=[order[a], order[b]], observed_impl=iv, model_output=mv))
     kk = 0
     for a in range(n):
@@ -651,7 +657,7 @@ def check_dist(rep, c, ir, mr, stats):
             if c["calc_id"] == "pdist" and mres is not None and mres != "nan":
                 mv = float(F(mres[1][0], mres[1][1]))
             iv = d["dist"] if c["calc_id"] != "pdist" else d["p"]
-            illcond = c["calc_id"] in ("paralinear", "logdet", "logdet_notk") and oracle_pair(c["calc_id"], seqs[a], seqs[b])[0] == "skip"
+            illcond = c["calc_id"] in ("paralinear", "logdet", "logdet_notk", "tn93") and oracle_pair(c["calc_id"], seqs[a], seqs[b])[0] == "skip"
             if not illcond and not close(iv, mv):
                 dis.append(dict(key=f"dist:{c['calc_id']}:func", case=c, pair=[order[a], order[b]], observed_impl=iv, model_output=mv))
             if mres is not None and mres != "nan" and d["total"] is not None:
